@@ -5,6 +5,7 @@
 
 #include <etl/_algorithm/iter_swap.hpp>
 #include <etl/_functional/less.hpp>
+#include <etl/_iterator/next.hpp>
 
 namespace etl {
 
@@ -20,10 +21,11 @@ namespace etl {
 template <typename RandomIt, typename Compare>
 constexpr auto bubble_sort(RandomIt first, RandomIt last, Compare comp) -> void
 {
-    for (auto i = first; i != last; ++i) {
-        for (auto j = first; j < i; ++j) {
-            if (comp(*i, *j)) {
-                etl::iter_swap(i, j);
+    // exchange adjacent elements only, and only when strictly out of order: keeps equivalent elements in order
+    for (auto end = last; end != first; --end) {
+        for (auto j = first, k = etl::next(first); k != end; ++j, (void)++k) {
+            if (comp(*k, *j)) {
+                etl::iter_swap(j, k);
             }
         }
     }
